@@ -41,6 +41,8 @@ def main(ctx):
     # in-memory stores: the same, with `save` (the store becomes file-backed) and reopening of the saved file
     ex += short_sequences('AGHVP', 4, False, mem=True) if ctx.tier == 'quick' else short_sequences('AGHVP', 5, False, mem=True)
     # the same short sequences with trajectories that have no points (falsy objects, empty arrays on disk)
+    # overlapping walks over one store object (zip of the store with itself, a walk resumed after another complete walk)
+    ex += short_sequences('AZUGP', 3, False) + short_sequences('AZUV', 3, False, mem=True)
     ex += short_sequences('AGHIP', 3, False, npts=0)
     ex += short_sequences('AGHV', 3, False, npts=0, mem=True)
     ctx.extra['exhaustive_short_sequences'] = len(ex)
